@@ -12,7 +12,7 @@ op tokens
   e<h> o<h> f<h>     handle h .__enter__() / .__exit__(None…) / .__exit__(exc…)
   I                  conn.invalidate()
   F<p><k>            arm fault: p ∈ {u cursor, x execute, c commit, r rollback}, k ∈ {e, d}
-                     (`Fue`, an unclassified error from cursor(), is rejected)
+                     (`Fue`: the statement fails before autobegin, the handler emits its autorollback)
   D                  clear armed faults that did not fire
   W<n>               n extra connections opened and returned
   N                  new Connection (engine.connect())
@@ -45,7 +45,6 @@ def parseOp (s : String) : Option Op :=
     match (match p with | 'u' => some FPoint.cursor | 'x' => some .execute | 'c' => some .commit
                          | 'r' => some .rollback | 'n' => some .connect | _ => none),
           (match k with | 'e' => some FKind.err | 'd' => some .disc | 'k' => some .kbi | _ => none) with
-    | some .cursor, some .err => none
     | some .cursor, some .kbi => none
     | some .execute, some .kbi => none
     | some .connect, some .kbi => none
@@ -137,10 +136,10 @@ def parseRecycle (s : String) : Option (Option Nat) :=
   if s == "none" then some none else s.toNat?.map some
 
 def runAll (rs : ResetStyle) (ls : Listener) (ops : String) (eo : List Bool := [])
-    (rc : Option Nat := none) : String :=
+    (rc : Option Nat := none) (skipAc : Bool := false) : String :=
   match (if ops == "-" then some [] else (ops.splitOn ";").mapM parseOp) with
   | some ops =>
-    match runOps false (Conn.connect (DB.init rs ls eo rc)) ops with
+    match runOps false (Conn.connect (DB.init rs ls eo rc skipAc)) ops with
     | some out => if out.isEmpty then "-" else "|".intercalate out
     | none => "bad-op"
   | none => "bad-op"
@@ -160,6 +159,10 @@ def handle : List String → String
     match parseReset reset, parseListener listener, parseRecycle recycle with
     | some rs, some ls, some rc => runAll rs ls ops [] rc
     | _, _, _ => "bad-op"
+  | ["runs", reset, eo, ops] =>       -- engine with skip_autocommit_rollback=True
+    match parseReset reset, parseEngineOpts eo with
+    | some rs, some eo => runAll rs .none ops eo none true
+    | _, _ => "bad-op"
   | ["runl", reset, listener, ops] =>
     match parseReset reset, parseListener listener with
     | some rs, some ls => runAll rs ls ops
